@@ -1,31 +1,30 @@
 """C16: signal definitions normalise to consistent, stable storage parameters.
 Proof: coq/Properties_C16.v (model coq/SigDef.v of jls_core_signal_def_validate / signal_def_defaults /
-round_up_to_multiple / jls_core_signal_def_align; all 2^128 inputs x 7 widths; the guard is proved exact).
+round_up_to_multiple / jls_core_signal_def_align as they are now; all 2^128 inputs x 7 widths):
+C16_align_total (stored consistent - 256-bit entries for every width - or rejected with PARAMETER_INVALID, never a
+fault), C16_align_exact (exactly which definitions are rejected and what is stored), C16_align_idem (unguarded),
+C16_align_defaults (24-bit included).
 Correspondence: harness kind `sigdef` (validate + align called directly on a struct, forked child so SIGFPE
 and hangs are observations) on the plain and ASan/UBSan builds vs the extracted model (sd_align_fast, proved
-equal to sd_align); the extracted `consistent_clauses` / `entry256b` evaluated on the implementation's output;
-idempotence of the implementation (output fed back); a sample through jls_wr_signal_def -> file -> jls_rd_signal
--> second file.
-Defect classes of /repo are reported with stable signatures:
-  sigdef-overflow-divzero        uint32 wrap in round_up_to_multiple -> division by zero (SIGFPE)
-  sigdef-overflow-inconsistent   uint32 wrap -> entries_per_summary stored as 0
-  sigdef-24bit-zero-ts-factors   24-bit types take no defaults: annotation/utc decimate factors stay 0
-  sigdef-24bit-not-256-multiple  24-bit types: level-1 entry of sdf*24 bits is not a multiple of 256 bits
-  sigdef-renormalise-overflow    a consistent stored definition faults / changes when defined again"""
+equal to sd_align).  Independently of the model, on what the implementation returns: no fault; a stored definition
+satisfies the extracted `consistent_clauses` (proved to reflect Consistent); the stored definition defined again gives
+identical parameters; a sample goes through jls_wr_signal_def -> file -> jls_rd_signal -> second file.
+(The five defect classes this check found in the original code - uint32 wrap -> SIGFPE / entries_per_summary 0,
+24-bit types without defaults and with 240-bit entries, consistent stored definitions that fault when defined again -
+are fixed in /repo (591c3d3, e7caa59, 9149f75); their witnesses are the C16_old_* theorems.)"""
 import math, os, re
 import vlib
 
 PROP_FILES = ["Properties_C16.v"]
 U32 = 1 << 32
-SIGS = ("sigdef-overflow-divzero", "sigdef-overflow-inconsistent", "sigdef-24bit-zero-ts-factors",
-        "sigdef-24bit-not-256-multiple", "sigdef-renormalise-overflow")
-CLAUSES = ["entry-whole-bytes", "entry-256bit-if-w-divides-256", "sdf-divides-spd", "block-entries-divide-eps",
-           "sumdf-divides-eps", "spd>=min", "sdf>=min", "eps>=min", "sumdf>=min", "anno>=1", "utc>=1"]
+CLAUSES = ["entry-whole-bytes", "entry-multiple-of-256-bits", "sdf-divides-spd", "block-entries-divide-eps",
+           "sumdf-divides-eps", "spd>=min", "sdf>=min", "eps>=min", "sumdf>=min", "anno>=min", "utc>=min"]
 
 SMALL = [0, 1, 10, 11, 256, 257, 1000]
 BOUNDARY = [0, 1, 9, 10, 11, 255, 256, 257, 1000, 65535, 65536, 65537, 2**31 - 1, 2**31, 2**31 + 1]
 TOP_QUICK = [U32 - k for k in (300, 257, 256, 255, 65, 64, 63, 33, 32, 31, 20, 17, 16, 15, 11, 10, 9, 8, 7, 6, 5, 4, 3, 2, 1)]
 TOP_ALL = [U32 - k for k in range(300, 0, -1)]
+EPS_LIMIT = (U32 - 1) // 2 // 32          # entries_per_summary * 4 * sizeof(double) <= UINT32_MAX / 2
 
 
 def datatypes():
@@ -38,6 +37,10 @@ def datatypes():
 
 def width(dt):
     return (dt >> 8) & 0xff
+
+
+def multiple(w):
+    return 32 if w == 24 else 256 // w
 
 
 def gen_cases(ctx, dts):
@@ -56,49 +59,59 @@ def gen_cases(ctx, dts):
                     for e in SMALL:
                         out.append(("small-grid", "%d %d %d %d %d %d %d" % (dt, a, b, c, e, ts[k % 4], ts[(k // 4) % 4])))
                         k += 1
-    # 2. the boundary grid: complete over pairs of "large" coordinates, sampled over the rest
+    # 2. the boundary grid, sampled; 3. complete single-axis sweeps of the whole boundary list
     top = TOP_QUICK if quick else TOP_ALL
-    n_grid = 22000 if quick else 600000
-    for _ in range(n_grid):
+    for _ in range(22000 if quick else 1200000):
         dt = rng.choice(dtv)
         a, b, c, e = (rng.choice(BOUNDARY) if rng.random() < 0.6 else rng.choice(top) for _ in range(4))
         out.append(("boundary-grid", "%d %d %d %d %d %d %d" % (dt, a, b, c, e, rng.choice(ts), rng.choice(ts))))
-    # one coordinate sweeps the whole boundary list, the others at zero (defaults) / small: complete
     for dt in dtv:
         for pos in range(4):
             for v in BOUNDARY + TOP_ALL:
                 f = [0, 0, 0, 0]
                 f[pos] = v
                 out.append(("axis-sweep", "%d %d %d %d %d 0 0" % (dt, f[0], f[1], f[2], f[3])))
-    # 3. aimed at the three guard boundaries (case splits of the proofs)
-    n_aim = 250 if quick else 6000
+    # 4. aimed at the accept/reject boundaries of C16_align_exact
+    n_aim = 300 if quick else 12000
     for dt in dtv:
         w = width(dt)
-        m = 256 // w
+        m = multiple(w)
+        lim_spd = ((U32 - 1) // 2 * 8 + 7) // w          # samples_per_data * w / 8 <= UINT32_MAX / 2
         for _ in range(n_aim):
-            kind = rng.randrange(3)
-            sdf = rng.choice([0, 10, rng.randrange(1, 5000), rng.randrange(1, U32)])
-            if kind == 0:        # sdf0 + m - 1 around 2^32
-                sdf = U32 - m + 1 + rng.randrange(-3, 3)
+            kind = rng.randrange(5)
+            anno, utc = rng.choice(ts), rng.choice(ts)
+            if kind == 0:        # rounding of sample_decimate_factor reaches 2^32
+                sdf = U32 - m + rng.randrange(-3, 3)
                 spd, eps, sumdf = rng.choice([0, 10, rng.randrange(U32)]), rng.choice([0, 640]), rng.choice([0, 20])
-            elif kind == 1:      # spd0 + sdf1 - 1 around 2^32
-                sdf0 = max(sdf, 10) if sdf else 128
-                sdf1 = (sdf0 + m - 1) // m * m
-                spd = (U32 - sdf1 + 1 + rng.randrange(-3, 3)) % U32
+            elif kind == 1:      # rounding of samples_per_data reaches 2^32
+                sdf = rng.choice([10, rng.randrange(1, 5000), rng.randrange(1, U32)])
+                sdf1 = (max(sdf, 10) + m - 1) // m * m
+                spd = ((U32 - 1) // sdf1 * sdf1 + rng.randrange(-2, 3)) % U32
                 eps, sumdf = rng.choice([0, 640, rng.randrange(10, 100000)]), rng.choice([0, 20, rng.randrange(10, 1000)])
-            else:                # eps0 + sumdf1 - 1 around 2^32
+            elif kind == 2:      # rounding of entries_per_summary reaches 2^32
                 sumdf = rng.choice([10, 20, rng.randrange(1, 100000), rng.randrange(1, U32)])
-                eps = (U32 - max(sumdf, 10) + 1 + rng.randrange(-3, 3)) % U32
-                spd = rng.choice([0, rng.randrange(10, 100000)])
-                sdf = rng.choice([0, rng.randrange(1, 2000)])
-            out.append(("guard-boundary", "%d %d %d %d %d %d %d" % (dt, spd % U32, sdf % U32, eps % U32, sumdf % U32, rng.choice(ts), rng.choice(ts))))
-    # 4. random, magnitudes log-uniform
+                s1 = max(sumdf, 10)
+                eps = ((U32 - 1) // s1 * s1 + rng.randrange(-2, 3)) % U32
+                spd, sdf = rng.choice([0, rng.randrange(10, 100000)]), rng.choice([0, rng.randrange(1, 2000)])
+            elif kind == 3:      # summary buffer size limit: entries_per_summary around UINT32_MAX/2/32
+                sumdf = rng.choice([0, 10, 16, 20, rng.randrange(1, 2000)])
+                eps = EPS_LIMIT + rng.randrange(-2 * max(sumdf, 20), 2 * max(sumdf, 20))
+                spd, sdf = rng.choice([0, rng.randrange(10, 100000)]), rng.choice([0, rng.randrange(1, 2000)])
+            else:                # block buffer size limit: spd = sdf1 * k around the limit, eps a multiple of k (loop keeps k)
+                kk = rng.choice([1, 2, 5, rng.randrange(1, 4000), rng.randrange(1, 200000)])
+                sdf = max(10, lim_spd // kk) // m * m + m * rng.randrange(-2, 3)
+                sdf = min(max(sdf, m), U32 - 1)
+                spd = min(sdf * kk, U32 - 1)
+                sumdf = 10
+                eps = min(kk * 10 * rng.randrange(1, 50), EPS_LIMIT - 7)
+            out.append(("accept-boundary", "%d %d %d %d %d %d %d" % (dt, spd % U32, sdf % U32, eps % U32, sumdf % U32, anno, utc)))
+    # 5. random, magnitudes log-uniform
     def rv():
         return rng.randrange(1 << rng.randrange(1, 33))
-    for _ in range(6000 if quick else 150000):
+    for _ in range(8000 if quick else 300000):
         out.append(("random", "%d %d %d %d %d %d %d" % (rng.choice(dtv), rv(), rv(), rv(), rv(), rv() if rng.random() < .5 else 0, rv() if rng.random() < .5 else 0)))
-    # divisibility structure: eps a multiple / near-multiple of spd/sdf, small co-prime cases (the loop)
-    for _ in range(4000 if quick else 80000):
+    # 6. divisibility structure: eps a multiple / near-multiple of spd/sdf, small co-prime cases (the loop)
+    for _ in range(6000 if quick else 150000):
         dt = rng.choice(dtv)
         sdf = rng.randrange(1, 600)
         epd = rng.randrange(1, 400)
@@ -106,7 +119,7 @@ def gen_cases(ctx, dts):
         sumdf = rng.randrange(1, 60)
         eps = rng.choice([epd * rng.randrange(1, 50), sumdf * rng.randrange(1, 500), rng.randrange(1, 30000)]) + rng.randrange(-1, 2)
         out.append(("divisibility", "%d %d %d %d %d %d %d" % (dt, max(spd, 0), sdf, max(eps, 0), sumdf, rng.choice(ts), rng.choice(ts))))
-    # 5. validation: data types, q field, signal/source ids, signal type
+    # 7. validation: data types, q field, signal/source ids, signal type
     for _ in range(700 if quick else 20000):
         base = rng.choice(dtv)
         c = rng.randrange(8)
@@ -125,7 +138,6 @@ def gen_cases(ctx, dts):
         src = rng.choice([0, 1, 255, 256, 257, 65535]) if c == 6 else 1
         ty = rng.choice([0, 1, 2, 3, 255]) if c == 7 else rng.choice([0, 1])
         out.append(("validate", "%d %d %d %d %d %d %d %d %d %d" % (dt, rng.choice(SMALL), rng.choice(SMALL), rng.choice(SMALL), rng.choice(SMALL), 0, 0, sid, src, ty)))
-    # de-duplicate, keep first origin
     seen, res = set(), []
     for o, l in out:
         if l not in seen:
@@ -134,15 +146,15 @@ def gen_cases(ctx, dts):
     return res
 
 
-def budget_split(ctx, lines, guard, scale=1.0):
-    """light cases run everywhere; heavy ones (long C loop / long model divisor scan) are sampled within a budget."""
+def budget_split(ctx, lines, loopargs, scale=1.0):
+    """light cases run everywhere; heavy ones (long C loop: up to 3.6e8 iterations / long model divisor scan) are
+    sampled within a budget."""
     quick = ctx.tier == "quick"
-    model_budget = scale * (6.0e6 if quick else 5.0e7)       # divisor-scan steps of the extracted model (~7 us each)
-    c_budget = scale * (1.5e10 if quick else 2.0e11)         # C loop iterations (~2 ns each), per build
+    model_budget = scale * (1.2e7 if quick else 5.0e7)       # divisor-scan steps of the extracted model (~7 us each)
+    c_budget = scale * (4.0e10 if quick else 2.0e11)         # C loop iterations (~2 ns each), per build
     light, heavy = [], []
-    for l, g in zip(lines, guard):
-        _, e1, e0 = g.split()
-        e1, e0 = int(e1), int(e0)
+    for l, g in zip(lines, loopargs):
+        e1, e0 = (int(x) for x in g.split())
         if e1 == 0 or e0 == 0:
             mc = cc = 0
         elif e0 >= e1:
@@ -158,7 +170,7 @@ def budget_split(ctx, lines, guard, scale=1.0):
         else:
             skipped += 1
     light = [l for l, _, _ in light]
-    ctx.rng.shuffle(light)        # faulting cases (one fork each) cluster in generation order: spread them over the shards
+    ctx.rng.shuffle(light)
     return light, kept, skipped
 
 
@@ -174,207 +186,159 @@ def norm_fault(s):
     return "FAULT SIGFPE" if s == "FAULT UBSAN_DIVZERO" else s
 
 
-class Classes:
+class Findings:
+    """violations grouped by kind; the first few of each kind become replay files"""
     def __init__(self, ctx):
-        self.ctx = ctx
-        self.n = {}
-        self.first = {}
+        self.ctx, self.n, self.first = ctx, {}, {}
 
-    def hit(self, sig, line, text):
-        key = sig or "UNEXPLAINED"
-        self.n[key] = self.n.get(key, 0) + 1
-        if key not in self.first or (sig is None and self.n[key] <= 5):
-            self.first.setdefault(key, []).append((line, text))
+    def hit(self, kind, line, text):
+        self.n[kind] = self.n.get(kind, 0) + 1
+        if self.n[kind] <= 3:
+            self.first.setdefault(kind, []).append((line, text))
 
     def report(self):
-        for key, lst in self.first.items():
-            sig = None if key == "UNEXPLAINED" else key
-            for i, (line, text) in enumerate(lst[:5]):
-                name = "%s_%d.txt" % (key, i)
-                body = ("property=C16\nclass=%s\ncount_in_this_run=%d\nline=%s\n%s\n"
+        for kind, lst in self.first.items():
+            for i, (line, text) in enumerate(lst):
+                body = ("property=C16\nkind=%s\ncount_in_this_run=%d\nline=%s\n%s\n"
                         "replay (implementation): echo '%s' | %s/plain/jlsrun sigdef      (also %s/asan/jlsrun)\n"
                         "replay (model):          echo '%s' | %s/jlsmodel sigdef\n"
+                        "or: python3 tools/check.py C16 --replay <this file>\n"
                         "line format: data_type samples_per_data sample_decimate_factor entries_per_summary summary_decimate_factor "
                         "annotation_decimate_factor utc_decimate_factor [signal_id source_id signal_type]; result: rc + the same six fields\n"
-                        % (key, self.n[key], line, text, line, vlib.BUILD, vlib.BUILD, line, vlib.BUILD))
-                self.ctx.violation(name, body, "%s: %s  [%s] (%d case(s) in this run)" % (key, text.splitlines()[0][:150], line, self.n[key]), sig=sig)
+                        % (kind, self.n[kind], line, text, line, vlib.BUILD, vlib.BUILD, line, vlib.BUILD))
+                self.ctx.violation("%s_%d.txt" % (kind, i), body,
+                                   "%s: %s  [%s] (%d case(s) in this run)" % (kind, text.splitlines()[0][:170], line, self.n[kind]))
 
 
-def check(ctx, cases, dts, cls):
+def check(ctx, cases, fnd):
     origin = dict((l, o) for o, l in cases)
     lines = [l for _, l in cases]
-    guard = vlib.run_model("sigdef", lines, args=["guard"])
-    light, heavy, skipped = budget_split(ctx, lines, guard)
-    gmap = dict(zip(lines, guard))
+    light, heavy, skipped = budget_split(ctx, lines, vlib.run_model("sigdef", lines, args=["loopargs"]))
     run_lines = light + heavy
     model = dict(zip(run_lines, vlib.run_model("sigdef", light, args=["align"]) + vlib.run_model("sigdef", heavy, args=["align"])))
-    impl = {}
-    impl["plain"] = dict(zip(run_lines, run_c_quiet("plain", light, 5) + run_c_quiet("plain", heavy, 120)))
-    # a faulting case costs a fork + a sanitizer report on the ASan/UBSan build: all non-faulting cases, a sample of the faulting ones
-    pred_fault = [l for l in light if model[l].startswith("FAULT")]
-    ctx.rng.shuffle(pred_fault)
-    n_f = 1500 if ctx.tier == "quick" else 12000
-    skip_asan = set(pred_fault[n_f:])
-    asan_light = [l for l in light if l not in skip_asan]
-    impl["asan"] = dict(zip(asan_light + heavy, run_c_quiet("asan", asan_light, 5) + run_c_quiet("asan", heavy, 120)))
-    dist = {"by_origin": {}, "by_outcome": {}, "by_width": {}, "heavy_run": len(heavy), "heavy_skipped_over_budget": skipped,
-            "faulting_cases_not_repeated_on_asan_build": len(skip_asan)}
+    impl = {v: dict(zip(run_lines, run_c_quiet(v, light, 5) + run_c_quiet(v, heavy, 120))) for v in ("plain", "asan")}
+    dist = {"by_origin": {}, "by_outcome": {}, "by_width": {}, "heavy_run": len(heavy), "heavy_skipped_over_budget": skipped}
     # what the implementation stored, for the consistency oracle and the second pass
     stored = {}
     for l in run_lines:
-        g = impl["plain"][l]
-        t = g.split()
+        t = impl["plain"][l].split()
         if t and t[0] == "0" and len(t) == 7:
             stored[l] = "%s %s" % (l.split()[0], " ".join(t[1:]))
     slines = sorted(set(stored.values()))
     cons = dict(zip(slines, vlib.run_model("sigdef", slines, args=["consistent"])))
-    # second pass (stored definition defined again): same budgeting - a stored entries_per_summary of 0 takes the default
-    # again and can start a long loop
-    l2, h2, skipped2 = budget_split(ctx, slines, vlib.run_model("sigdef", slines, args=["guard"]), scale=0.3)
+    l2, h2, skipped2 = budget_split(ctx, slines, vlib.run_model("sigdef", slines, args=["loopargs"]), scale=0.3)
     dist["second_pass_run"] = len(l2) + len(h2)
     dist["second_pass_skipped_over_budget"] = skipped2
     second_model = dict(zip(l2 + h2, vlib.run_model("sigdef", l2, args=["align"]) + vlib.run_model("sigdef", h2, args=["align"])))
     second = {v: dict(zip(l2 + h2, run_c_quiet(v, l2, 5) + run_c_quiet(v, h2, 120))) for v in ("plain", "asan")}
 
     for l in run_lines:
-        dt = int(l.split()[0])
-        w = width(dt)
-        gb = gmap[l].split()[0]
-        m = model[l]
-        gp, ga = impl["plain"][l], impl["asan"].get(l)
-        o = origin[l]
+        w = width(int(l.split()[0]))
+        m, gp, ga, o = model[l], impl["plain"][l], impl["asan"][l], origin[l]
         dist["by_origin"][o] = dist["by_origin"].get(o, 0) + 1
         # --- correspondence ---
         for variant, g in (("plain", gp), ("asan", ga)):
-            if g is not None and norm_fault(g) != m:
-                cls.hit(None, l, "model and implementation differ on build %s: implementation=%r model=%r" % (variant, g, m))
-        # --- the property on the implementation's result ---
+            if norm_fault(g) != m:
+                fnd.hit("model-differs", l, "model and implementation differ on build %s: implementation=%r model=%r" % (variant, g, m))
+        # --- the property on the implementation's result (independent of the model) ---
         t = gp.split()
-        if gp.startswith("FAULT"):
-            outcome = gp
-            if norm_fault(gp) == "FAULT SIGFPE" and (gb[0] == "0" or gb[1] == "0"):
-                cls.hit("sigdef-overflow-divzero", l, "jls_core_signal_def_align divides by zero (%s; ASan/UBSan build: %s); guard bits sdf/spd/eps/ts=%s: "
-                        "a uint32 rounding wrapped to 0" % (gp, ga or "same class sampled, this case not repeated", gb))
-            else:
-                cls.hit(None, l, "implementation faults: %s (guard bits %s)" % (gp, gb))
+        if gp.startswith("FAULT") or ga.startswith("FAULT"):
+            outcome = gp if gp.startswith("FAULT") else ga
+            fnd.hit("fault", l, "defining this signal faults instead of storing or rejecting it: plain build %s, ASan/UBSan build %s" % (gp, ga))
         elif len(t) == 7 and t[0] != "0":
-            outcome = "rejected rc=" + t[0]
+            # generators other than "validate" use valid data types and ids: there the rejection comes from align
+            outcome = "rejected rc=%s (%s)" % (t[0], "validation cases" if o == "validate" else "by jls_core_signal_def_align")
         elif len(t) == 7:
             s = stored[l]
             cb, e256 = cons[s].split()
             bad = [CLAUSES[i] for i, b in enumerate(cb) if b == "0"]
-            outcome = "stored-consistent" if not bad and e256 == "1" else "stored-INCONSISTENT"
-            if gb == "1111" and (bad or (w != 24 and e256 != "1")):
-                cls.hit(None, l, "guard holds but stored parameters %s violate %s (contradicts C16_align_ok_partial)" % (s, bad or "256-bit"))
-            if gb != "1111" and not bad:
-                cls.hit(None, l, "guard fails (%s) but implementation stored consistent parameters %s (contradicts C16_align_guard_exact)" % (gb, s))
-            if bad:
-                ts_only = set(bad) <= {"anno>=1", "utc>=1"}
-                eps_only = set(bad) <= {"eps>=min", "block-entries-divide-eps", "sumdf-divides-eps", "anno>=1", "utc>=1"} and "eps>=min" in bad
-                if w == 24 and ({"anno>=1", "utc>=1"} & set(bad)):
-                    cls.hit("sigdef-24bit-zero-ts-factors", l, "24-bit type takes no defaults: stored %s has a zero annotation/utc decimate factor (violates %s)" % (s, [b for b in bad if b in ("anno>=1", "utc>=1")]))
-                if eps_only and gb[2] == "0":
-                    cls.hit("sigdef-overflow-inconsistent", l, "rounding of entries_per_summary wrapped: stored %s violates %s" % (s, [b for b in bad if b not in ("anno>=1", "utc>=1")]))
-                elif not (w == 24 and ts_only):
-                    cls.hit(None, l, "stored parameters %s violate %s (guard bits %s)" % (s, bad, gb))
-            if e256 != "1":
-                if w == 24:
-                    cls.hit("sigdef-24bit-not-256-multiple", l, "24-bit type: stored %s: level-1 entry covers sample_decimate_factor*24 = %d bits, not a multiple of 256" % (s, int(s.split()[2]) * 24))
-                elif not bad:
-                    cls.hit(None, l, "stored %s: level-1 entry not a multiple of 256 bits" % s)
-            # --- normalising the stored parameters again ---
-            if s not in second_model:
-                dist["by_outcome"][outcome] = dist["by_outcome"].get(outcome, 0) + 1
-                dist["by_width"][w] = dist["by_width"].get(w, 0) + 1     # (stored => w is one of the 7 widths)
-                for variant in ("plain", "asan"):
-                    if not (variant == "asan" and ga is None):
-                        ctx.count((variant, l), nontrivial=True)
-                continue
-            s2p, s2a, s2m = second["plain"][s], second["asan"][s], second_model[s]
-            for variant, g in (("plain", s2p), ("asan", s2a)):
-                if norm_fault(g) != s2m:
-                    cls.hit(None, s, "model and implementation differ on build %s (second pass): implementation=%r model=%r" % (variant, g, s2m))
-            same = s2p.split()[1:] == s.split()[1:] and s2p.split()[0] == "0"
-            if not same:
-                outcome += "+second-pass-differs"
-                if not bad:
-                    big = int(s.split()[1]) + int(s.split()[2]) - 1 >= U32 or int(s.split()[3]) + int(s.split()[4]) - 1 >= U32
-                    cls.hit("sigdef-renormalise-overflow" if big else None, l,
-                            "stored %s is consistent, but defining a signal from it (second file) gives %s instead of the same parameters%s\n"
-                            "line=%s" % (s, s2p, " (spd+sdf-1 or eps+sumdf-1 >= 2^32)" if big else "", s))
-                # stored-inconsistent cases that also change are part of the class already reported
+            outcome = "stored"
+            if bad or e256 != "1":
+                outcome = "stored-INCONSISTENT"
+                fnd.hit("inconsistent", l, "stored parameters %s violate %s" % (s, bad))
+            if s in second_model:
+                s2p, s2a, s2m = second["plain"][s], second["asan"][s], second_model[s]
+                for variant, g in (("plain", s2p), ("asan", s2a)):
+                    if norm_fault(g) != s2m:
+                        fnd.hit("model-differs", s, "model and implementation differ on build %s (stored definition defined again): implementation=%r model=%r" % (variant, g, s2m))
+                want = "0 " + " ".join(s.split()[1:])
+                if s2p != want or s2a != want:
+                    outcome += "+second-pass-differs"
+                    fnd.hit("not-idempotent", l, "stored %s, but defining a signal from the stored definition (second file) gives %s (ASan build: %s) "
+                            "instead of the same parameters\nline=%s" % (s, s2p, s2a, s))
         else:
             outcome = "unparsed"
-            cls.hit(None, l, "unparsable implementation output %r" % gp)
+            fnd.hit("unparsed", l, "unparsable implementation output %r" % gp)
         dist["by_outcome"][outcome] = dist["by_outcome"].get(outcome, 0) + 1
         wk = w if w in (1, 4, 8, 16, 24, 32, 64) else "other (rejected by validation)"
         dist["by_width"][wk] = dist["by_width"].get(wk, 0) + 1
-        nontrivial = not outcome.startswith("rejected") or o == "validate"
         for variant in ("plain", "asan"):
-            if variant == "asan" and ga is None:
-                continue
-            ctx.count((variant, l), nontrivial=nontrivial,
-                      sample={"case": l, "guard_bits": gb, "implementation": gp, "model": m, "origin": o} if variant == "plain" and (ctx.cov["evaluations"] % 9973 == 0) else None)
-    return dist, stored
+            ctx.count((variant, l), nontrivial=True,
+                      sample={"case": l, "implementation": gp, "model": m, "origin": o} if variant == "plain" and (ctx.cov["evaluations"] % 9973 == 0) else None)
+    return dist, stored, model
 
 
-def check_files(ctx, stored, cls):
-    """whole path: jls_wr_signal_def -> file -> jls_rd_signal, then the stored definition into a second file"""
+def check_files(ctx, stored, model, fnd):
+    """whole path: jls_wr_signal_def -> file -> jls_rd_signal, then the stored definition into a second file;
+    plus definitions that align rejects: jls_wr_signal_def must return the same error code"""
     rng = ctx.rng
-    cand = sorted(stored.items())
+    n = 400 if ctx.tier == "quick" else 6000
+    cand = sorted(l for l in stored if len(l.split()) == 7)
     rng.shuffle(cand)
-    cand = cand[:400 if ctx.tier == "quick" else 6000]
-    first = ["F " + l for l, _ in cand if len(l.split()) == 7]
-    exp = [stored[l[2:]] for l in first]
+    rej = sorted(l for l, m in model.items() if len(l.split()) == 7 and m.split()[0] not in ("0", "FAULT"))
+    rng.shuffle(rej)
+    first = ["F " + l for l in cand[:n]] + ["F " + l for l in rej[:n // 4]]
     got = run_c_quiet("asan", first, 20)
-    n = 0
     again = []
-    for l, e, g in zip(first, exp, got):
+    for l, g in zip(first, got):
         ctx.count(("file", l), nontrivial=True)
-        n += 1
-        want = "0 " + " ".join(e.split()[1:])
-        if g != want:
-            cls.hit(None, l, "jls_wr_signal_def + reopen + jls_rd_signal gives %r, direct normalisation gives %r" % (g, want))
-        else:
-            again.append("F " + e)
+        if l[2:] in stored:
+            want = "0 " + " ".join(stored[l[2:]].split()[1:])
+            if g != want:
+                fnd.hit("file-path-differs", l, "jls_wr_signal_def + reopen + jls_rd_signal gives %r, direct normalisation gives %r" % (g, want))
+            else:
+                again.append("F " + stored[l[2:]])
+        elif g.split()[0] != model[l[2:]].split()[0]:
+            fnd.hit("file-path-differs", l, "jls_wr_signal_def gives %r, direct validate+align gives %r" % (g, model[l[2:]]))
     got2 = run_c_quiet("asan", again, 20)
-    direct2 = run_c_quiet("asan", [l[2:] for l in again], 5)
-    for l, g, d in zip(again, got2, direct2):
+    for l, g in zip(again, got2):
         ctx.count(("file2", l), nontrivial=True)
-        if norm_fault(g) != norm_fault(d):
-            cls.hit(None, l, "second file: jls_wr_signal_def path gives %r, direct normalisation gives %r" % (g, d))
-    return n, len(again)
+        want = "0 " + " ".join(l.split()[2:])
+        if g != want:
+            fnd.hit("not-idempotent", l, "second file: a signal defined from the parameters read out of the first file is stored as %r instead of %r" % (g, want))
+    return len(first), len(again)
 
 
 def run(ctx):
     vlib.build(ctx, PROP_FILES, variants=("plain", "asan"))
-    dts = datatypes()
-    cases = gen_cases(ctx, dts)
-    cls = Classes(ctx)
-    dist, stored = check(ctx, cases, dts, cls)
-    nf, nf2 = check_files(ctx, stored, cls)
+    cases = gen_cases(ctx, datatypes())
+    fnd = Findings(ctx)
+    dist, stored, model = check(ctx, cases, fnd)
+    nf, nf2 = check_files(ctx, stored, model, fnd)
     dist["file_roundtrips"] = nf
     dist["second_file_definitions"] = nf2
-    dist["defect_class_counts"] = dict(cls.n)
-    cls.report()
+    dist["violations_by_kind"] = dict(fnd.n)
+    fnd.report()
     ctx.extra["distribution"] = dist
     ctx.cov["rule"] = ("case = (data_type, samples_per_data, sample_decimate_factor, entries_per_summary, summary_decimate_factor, annotation/utc factors"
                        "[, signal_id, source_id, signal_type]); complete grid {0,1,10,11,256,257,1000}^4 x 15 data types; sampled grid over the boundary list "
                        "{0,1,9,10,11,255,256,257,1000,2^16-1..2^16+1,2^31-1..2^31+1,2^32-300..2^32-1}^4 x 15 types; complete single-axis sweeps of the whole list; cases "
-                       "aimed at the three rounding guards (x+m-1 = 2^32 +-3); random log-uniform; divisibility-structured; validation cases (q, base type, width, ids, "
-                       "signal type). Each case on the plain and the ASan+UBSan build, compared with the extracted model; the extracted Consistent/Entry256 oracle is "
-                       "evaluated on what the implementation stored; the stored definition is normalised again (must be identical); a sample goes through "
-                       "jls_wr_signal_def/jls_rd_signal and into a second file. distinct = (build, script line); non-trivial = not rejected by validation "
-                       "(validation cases count). Cases whose C loop would run > 2e6 iterations or whose model divisor scan is long are sampled within a budget "
-                       "(distribution.heavy_run / heavy_skipped_over_budget).")
+                       "aimed at the five accept/reject boundaries of C16_align_exact (three roundings reaching 2^32, block and summary buffer byte sizes reaching "
+                       "UINT32_MAX/2); random log-uniform; divisibility-structured; validation cases (q, base type, width, ids, signal type). Each case on the plain and "
+                       "the ASan+UBSan build, compared with the extracted model; independently the extracted Consistent oracle (incl. multiple of 256 bits for every "
+                       "width) is evaluated on what the implementation stored, no fault is allowed, and the stored definition is normalised again (must be "
+                       "identical); a sample goes through jls_wr_signal_def/jls_rd_signal and into a second file. distinct = (build, script line); every case is "
+                       "non-trivial (stored: oracle + second pass; rejected: error code compared). Cases whose C loop would run > 2e6 iterations or whose model "
+                       "divisor scan is long are sampled within a budget (distribution.heavy_run / heavy_skipped_over_budget).")
     if ctx.tier == "thorough":
         vlib.coqchk(ctx, ["Properties_C16"])
     return vlib.finish(ctx, "proof", "make -C /verif/coq -f Makefile.coq Properties_C16.vo && coqc -Q . JLS Properties_C16.v (Print Assumptions)",
-                       trusted_extra=["harness/jlsrun_k_sigdef.h calls jls_core_signal_def_validate then jls_core_signal_def_align exactly as jls_wr_signal_def does (writer.c:214-215)",
-                                      "x86 integer division by zero raises SIGFPE (UBSan build: 'division by zero' report) = model result SdFault SdDivZero"],
-                       note="theorems quantify over all 32-bit field values and all 7 sample widths; C16_align_guard_exact proves the guard is exactly the set of inputs on "
-                            "which the C neither faults nor stores inconsistent parameters; the unguarded statement is refuted (C16_refuted_*), matching the defect classes "
-                            "reported by this check")
+                       trusted_extra=["harness/jlsrun_k_sigdef.h calls jls_core_signal_def_validate then jls_core_signal_def_align exactly as jls_wr_signal_def does (writer.c)",
+                                      "sizeof(double) = 8 (SigDef.SD_SIZEOF_DOUBLE; not among the generated constants)",
+                                      "x86 integer division by zero raises SIGFPE (UBSan build: 'division by zero' report) = model result SdFault SdDivZero (only width 0, rejected by validation)"],
+                       note="theorems quantify over all 32-bit field values and all 7 sample widths, no guard: C16_align_total (stored consistent or rejected, never a fault), "
+                            "C16_align_exact (the exact set of rejected definitions and the exact stored parameters), C16_align_idem (unconditional); C16_old_* document the "
+                            "five defect classes of the original code that this check found and that are fixed in /repo")
 
 
 def replay(ctx, path):
@@ -387,12 +351,11 @@ def replay(ctx, path):
     rc = 0
     for l in lines:
         m = vlib.run_model("sigdef", [l], shards=1)[0]
-        g = vlib.run_model("sigdef", [l], args=["guard"], shards=1)[0]
         p = vlib.run_c("plain", "sigdef", [l], shards=1)[0]
         a = vlib.run_c("asan", "sigdef", [l], shards=1)[0]
-        print("case: %s\n  model:                   %s\n  guard bits, loop args:   %s\n  implementation (plain):  %s\n  implementation (asan):   %s" % (l, m, g, p, a))
+        print("case: %s\n  model:                   %s\n  implementation (plain):  %s\n  implementation (asan):   %s" % (l, m, p, a))
         t = p.split()
-        if p.startswith("FAULT") or norm_fault(p) != m or norm_fault(a) != m:
+        if p.startswith("FAULT") or a.startswith("FAULT") or norm_fault(p) != m or norm_fault(a) != m:
             rc = 1
         elif len(t) == 7 and t[0] == "0":
             s = "%s %s" % (l.split()[0], " ".join(t[1:]))
